@@ -37,7 +37,19 @@ class P(b1.Plugin):
         # a third of the definitions draw every knob uniformly, so that rare conjunctions (named_field on a tuple
         # variant + name disabled + method, ...) occur often enough
         u = rng.random() < 0.35
+        # every third enum definition walks the product of the type- and variant-level settings systematically
+        # (shape x named_field x variant name x enum name), with one field carrying method + rename
+        sysk = None
+        if kind == "enum" and i % 3 == 0:
+            sysk = (i // 3) % 54
+            plain = False
         td = gen.make_skeleton(rng, i, kind, ["L", "L", "S", "F", "K"], max_fields=3)
+        if sysk is not None:
+            shape = ["tuple", "named"][sysk % 2]
+            names = rng.sample(gen.FIELD_NAMES[:10], 2) if shape == "named" else [None, None]
+            td.variants = [gen.Variant("A", shape, [gen.Field(names[0], "L"), gen.Field(names[1], rng.choice(["L", "S"]))])] + td.variants[1:3]
+            for k, v in enumerate(td.variants):
+                v.name = gen.VARIANT_NAMES[k]
         for v in td.variants:
             for f in v.fields:
                 if f.name and f.name.startswith("r#"):
@@ -48,6 +60,8 @@ class P(b1.Plugin):
         tname = (tdef, None)
         if not plain:
             r = rng.random()
+            if sysk is not None:
+                r = [0.1, 0.4, 0.9][(sysk // 18) % 3]
             if r < (0.33 if u else 0.25):
                 tname = ("custom", "Ren%d" % i)
             elif r < (0.5 if u else 0.45):
@@ -65,6 +79,9 @@ class P(b1.Plugin):
                         vname = ("custom", "V%s" % v.name)
                     elif r < (0.67 if u else 0.4):
                         vname = ("disable", None)
+            if sysk is not None and v is td.variants[0]:
+                v.nf = [None, True, False][(sysk // 2) % 3]
+                vname = [("default", None), ("custom", "V%s" % v.name), ("disable", None)][(sysk // 6) % 3]
             named = named_default if v.nf is None else v.nf
             all_method = u and rng.random() < 0.25        # every shown field through a custom method
             for f in v.fields:
@@ -80,6 +97,8 @@ class P(b1.Plugin):
                         req["method"] = gen.METHOD_LEAVES.index(f.ty)
                     if named and not req["ignore"] and rng.random() < (0.45 if u else 0.3):
                         req["rename"] = "k_%s" % (f.name or "t")
+                if sysk is not None and v is td.variants[0] and f is v.fields[0]:
+                    req = {"ignore": False, "method": gen.METHOD_LEAVES.index(f.ty), "rename": ("k_%s" % (f.name or "t")) if named else None}
                 f.req["Debug"] = req
             # refused when nothing would be shown: keep a name in that case
             shown = any(not f.req["Debug"]["ignore"] for f in v.fields)
